@@ -56,6 +56,15 @@ Judge(e) ==
             \cup (IF \A k \in DOMAIN e.views :
                        LagWithinBound(e.views[k].lagSec, e.ignoreSec, e.deleteSec) => Queryable(Range(e.views[k].loaded), Range(e.after))
                     THEN {} ELSE {"blocks-loaded-by-a-gateway-within-the-lag-bound-still-in-the-bucket"})
+    ELSE IF e.kind = "gwlag" THEN
+        (* phase 2: the same composition observed through a REAL store gateway (store.BucketStore) that synced lagSec ago  *)
+        (* (views[1].loaded = what it selected then) and is queried, without syncing again, after the cleaner ran now:     *)
+        (* counts[x] = how often original sample x came back, qerr = error of the Series call, orig[i] = samples of block i *)
+        LET v == e.views[1] IN
+        (IF \A i \in Range(e.deleted) : e.in.ages[i] > e.deleteSec THEN {} ELSE {"block-deleted-only-after-the-delete-delay"})
+        \cup (IF LagWithinBound(v.lagSec, e.ignoreSec, e.deleteSec) =>
+                   (e.qerr = "" /\ \A i \in Range(v.loaded) : \A x \in Range(e.orig[i]) : e.counts[x] >= 1)
+                THEN {} ELSE {"gateway-within-the-lag-bound-still-answers-from-its-loaded-blocks"})
     ELSE {}
 
 (* model conformance: exact selection of the model's filters; delays in the model's ratio; the deleteDelay/2 planning rule *)
@@ -66,6 +75,7 @@ Drift(e) ==
     ELSE IF e.kind = "wiring" THEN
         \/ Range(e.deleted) # { b.id : b \in { x \in BlocksOf(e) : x.meta /\ x.markAge # NoMark /\ x.markAge > e.cleanerSec } }
         \/ e.cleanerSec # e.deleteSec \/ e.filterSec * 2 # e.deleteSec \/ e.storeSec # e.ignoreSec \/ e.err # ""
+    ELSE IF e.kind = "gwlag" THEN e.extra # 0
     ELSE e.included # (e.ageH * 3600 * 2 <= e.deleteSec)
 
 VARIABLE l
